@@ -194,8 +194,9 @@ class ProductDomain(Domain):
                         * b_volume
                     )
 
-                args = self.domain_a.necessary_variables - self.domain_b.space.variables
-                self._user_volume = UserFunction(avg_volume, args=args)
+                # (the estimate is not cached: Domain.volume evaluates a stored user
+                # volume by variable name and with a device, which avg_volume does
+                # not support)
                 return avg_volume(params)
             else:
                 # we can compute the volume only once and save it
